@@ -127,24 +127,28 @@ def Table.unlockIdx (t : Table) (i : Nat) (ls : List LockType) : Table :=
 /-- `GuardSet.Unlock()` -/
 def Table.unlockAll (t : Table) (i : Nat) : Table := t.unlockIdx i LockType.all
 
+/-- one pass over a list of (lock, exclusive?) requests for guard set `i`; stops at the first refusal -/
+def Table.attempt (t : Table) (i : Nat) : List (LockType × Bool) → Table × Bool
+  | [] => (t, true)
+  | (l, ex) :: rest =>
+    match t.call l (if ex then .tryLock else .tryRLock) i with
+    | (t', .bool true) => t'.attempt i rest
+    | (t', _) => (t', false)
+
+/-- what `TryAcquireWriteLock` requests after the initial PENDING/SHARED probe, by journal mode -/
+def writeLockPlan (walMode : Bool) : List (LockType × Bool) :=
+  if !walMode then [(.reserved, true), (.pending, true), (.shared, true)]
+  else [(.dms, false), (.write, true), (.ckpt, true), (.recover, true), (.read0, true), (.read1, true),
+        (.read2, true), (.read3, true), (.read4, true)]
+
 /-- `TryAcquireWriteLock`: returns the index of the internal guard set on success; on failure
     everything it took is released again (the deferred `gs.Unlock()`) -/
 def Table.tryAcquireWriteLock (t : Table) (walMode : Bool) : Table × Option Nat :=
   let (t, i) := t.add 0 true
-  let attempt (t : Table) : List (LockType × Bool) → Table × Bool      -- (lock, exclusive?)
-    | steps => steps.foldl (fun (st : Table × Bool) s =>
-        if !st.2 then st else
-        match st.1.call s.1 (if s.2 then .tryLock else .tryRLock) i with
-        | (t', .bool true) => (t', true)
-        | (t', _) => (t', false)) (t, true)
-  let (t, ok) := attempt t [(.pending, false), (.shared, false)]
+  let (t, ok) := t.attempt i [(.pending, false), (.shared, false)]
   if !ok then (t.unlockAll i, none) else
   let t := (t.call .pending .unlock i).1
-  let steps : List (LockType × Bool) :=
-    if !walMode then [(.reserved, true), (.pending, true), (.shared, true)]
-    else [(.dms, false), (.write, true), (.ckpt, true), (.recover, true), (.read0, true), (.read1, true),
-          (.read2, true), (.read3, true), (.read4, true)]
-  let (t, ok) := attempt t steps
+  let (t, ok) := t.attempt i (writeLockPlan walMode)
   if ok then (t, some i) else (t.unlockAll i, none)
 
 /-- the lock sequence of `Export` / `WriteSnapshotTo` when nothing blocks; `none` if some step
